@@ -32,6 +32,7 @@ RULE = ("configurations: 1-3 producers x 0-5 messages, failure masks (none / fir
         "schedules: context-bounded DFS (<= 2 preemptions quick, <= 3 thorough) from the real code's enabled sets plus seeded random schedules; "
         "some messages are empty / zero objects ({}, [], 0, "", b"", ()) since the writer accepts any object; "
         "redundant stopService calls (again after a completed stop / before any start) between the cycles; "
+        "two writers in one process with interleaved offers (oracle per writer); "
         "plus bursts of 1 500 / 12 000 (thorough: 50 000) messages offered before the writer thread runs (backlog dimension, oracle only); "
         "a case = (configuration, executed schedule); non-trivial = >= 1 message, >= 1 preemption, and at least one put happens after the "
         "first startService statement ran; distinct by canonical hash")
@@ -219,6 +220,116 @@ def run_real(S, case, chooser):
         if isinstance(e, InfraError):
             raise e
     return res, dict(log=log, puts=q.puts, left=left, errors=errors, running=bool(getattr(w, "running", None)), skip=skip)
+
+
+def run_real_two(S, case, chooser):
+    """Two writers in one process, each with its own wrapped destination, its own producers (`owner[i]` = writer of
+    producer i) and its own controller thread running `cycles` start/stop cycles.  Returns the scheduler result and one
+    observation per writer, with thread ids renumbered so that the single-writer oracle applies to each of them."""
+    lw = load_logwriter()
+    from eliot import Logger
+
+    D = Logger._destinations
+    saved = (D._destinations, D._any_added)
+    D._destinations, D._any_added = [], True
+    fails = set(case["fails"])
+    pay = Payloads(None)
+    nw = 2
+    logs = [[] for _ in range(nw)]
+
+    def mkdest(wi):
+        def dest(msg):
+            k = pay.ident(msg)
+            ok = k not in fails
+            logs[wi].append(["call", k, S.current()[0], ok])
+            if not ok:
+                raise EXCS[k % len(EXCS)]("destination failed on %r" % (k,))
+        return dest
+
+    writers = [lw.ThreadedWriter(mkdest(wi), Reactor()) for wi in range(nw)]
+    queues = []
+    for w in writers:
+        q = RecQueue(w._queue, S, lw._STOP, pay.ident)
+        w._queue = q
+        queues.append(q)
+
+    def producer(ids, w):
+        def body():
+            for k in ids:
+                w(pay.make(k))
+        return body
+
+    def controller(wi):
+        def body():
+            for c in range(case["cycles"]):
+                writers[wi].startService()
+                d = writers[wi].stopService()
+                d.addCallback(lambda r, c=c: (logs[wi].append(["stopped", c, S.current()[0]]), r)[1])
+                S.pseudo_gate("<await-stop>", lambda d=d: d.called)
+        return body
+
+    nprod = len(case["producers"])
+    try:
+        res = S.run([producer(p, writers[case["owner"][i]]) for i, p in enumerate(case["producers"])] + [controller(wi) for wi in range(nw)], chooser)
+        lefts = []
+        for q in queues:
+            left = []
+            while not q.empty():
+                it = q.get_nowait()
+                left.append("stop" if it is lw._STOP else pay.ident(it))
+            lefts.append(left)
+    finally:
+        for w in writers:
+            try:
+                while w in D._destinations:
+                    D._destinations.remove(w)
+            except Exception:
+                pass
+        D._destinations, D._any_added = saved
+    for e in res.errors.values():
+        if isinstance(e, InfraError):
+            raise e
+    nworkers = nprod + nw
+    per = []
+    for wi in range(nw):
+        mine = [i for i in range(nprod) if case["owner"][i] == wi]
+        tmap = {t: j for j, t in enumerate(mine)}
+        tmap[nprod + wi] = len(mine)
+
+        def rm(t, tmap=tmap):
+            if t in tmap:
+                return tmap[t]
+            return 100 + t if (t is not None and t < nworkers) else t
+
+        log = [[e[0], e[1], rm(e[2])] + e[3:] for e in logs[wi]]
+        per.append(dict(case=dict(producers=[case["producers"][i] for i in mine], cycles=case["cycles"], fails=case["fails"]),
+                        obs=dict(log=log, puts=[(item, rm(t)) for item, t in queues[wi].puts], left=lefts[wi],
+                                 errors={rm(t): type(e).__name__ for t, e in res.errors.items() if t in tmap or t >= nworkers}, skip=[])))
+    return res, per
+
+
+def oracle_two(case, res, per):
+    bad = []
+    for wi, p in enumerate(per):
+        for b in oracle(p["case"], res, p["obs"]):
+            if "process-wide" in b and wi:
+                continue
+            bad.append("writer %d: %s" % (wi, b))
+    return bad
+
+
+def two_writer_configs(rng, thorough):
+    ids = itertools.count(5000)
+
+    def mk(sizes, owner, cycles, nfail):
+        prods = [[next(ids) for _ in range(k)] for k in sizes]
+        flat = [m for p in prods for m in p]
+        return dict(kind="two-writers", producers=prods, owner=owner, cycles=cycles, fails=sorted(rng.sample(flat, min(nfail, len(flat)))))
+
+    out = [mk([1, 1], [0, 1], 1, 0), mk([2, 1], [0, 1], 1, 1), mk([1, 2], [0, 1], 2, 0), mk([1, 1, 1], [0, 1, 0], 1, 0)]
+    if thorough:
+        out += [mk([3, 2], [0, 1], 2, 1), mk([2, 2, 1], [0, 1, 1], 2, 2), mk([2, 0], [0, 1], 1, 0), mk([1, 1, 1], [1, 0, 1], 3, 1)]
+    return out
 
 
 def thread_roles(res, nprod):
@@ -454,7 +565,8 @@ def run(ctx):
     bound = ctx.budget(2, 3)
     dfs_limit = ctx.budget(160, 3000) * (2 if broken else 1)
     nrandom = ctx.budget(25, 250) * (2 if broken else 1)
-    deadline = time.time() + ctx.budget(55, 800)
+    deadline = time.time() + ctx.budget(45, 800) * sched.budget_scale()
+    MINCFG, MINPER = 16, 63  # minimum exploration, whatever the clock says: 16 configurations x 63 schedules (>= 1000)
     S = make_scheduler()
     model_in, model_ctx = [], []
     nviol = 0
@@ -462,28 +574,35 @@ def run(ctx):
     done = nsched = 0
     for ci, cfg in enumerate(cfgs):
         left = deadline - time.time()
-        if left <= 0 or nviol >= 3:
+        if (left <= 0 and done >= MINCFG) or nviol >= 3:
             break
         done += 1
-        per_end = time.time() + max(1.0, left / (len(cfgs) - ci) * 2)
+        per_end = time.time() + max(0.0, left / (len(cfgs) - ci) * 2)
+        ran = [0]
         case0 = dict(producers=cfg["producers"], cycles=cfg["cycles"], fails=cfg["fails"], falsy=cfg.get("falsy") or {}, redundant=cfg.get("redundant") or [])
         nprod = len(cfg["producers"])
         nmsgs = sum(len(p) for p in cfg["producers"])
 
         def gen():
+            # a third of the random schedules first (they reach deep alternatives the bounded DFS only gets to late), then
+            # the DFS, then the rest of the random ones; the clock cuts only beyond MINPER schedules of this configuration
+            first = max(1, nrandom // 3)
+            for _ in range(first):
+                yield "random", run_real(S, case0, sched.RandomChooser(srng, stay=srng.choice([0.0, 0.5, 0.8, 0.9])))
             for r in sched.explore(lambda ch: run_real(S, case0, ch), bound=bound, limit=dfs_limit, result=lambda r: r[0]):
                 yield "dfs", r
-                if time.time() > per_end:
+                if time.time() > per_end and ran[0] >= MINPER:
                     ctx.count("budget:cut")
                     return
-            for _ in range(nrandom):
-                if time.time() > per_end:
+            for _ in range(nrandom - first):
+                if time.time() > per_end and ran[0] >= MINPER:
                     ctx.count("budget:cut")
                     return
                 yield "random", run_real(S, case0, sched.RandomChooser(srng, stay=srng.choice([0.0, 0.5, 0.8, 0.9])))
 
         for how, (res, obs) in gen():
             nsched += 1
+            ran[0] += 1
             case = dict(case0, schedule=res.schedule)
             fs = first_start_step(res, sk, nprod)
             late_put = fs is not None and any(s.tid < nprod and s.line in call_lines for s in res.trace[fs:])
@@ -501,9 +620,6 @@ def run(ctx):
                 break
     ctx.count("explored:configurations", n=done)
     ctx.count("explored:schedules", n=nsched)
-    if (done < 16 or nsched < 1000) and not nviol:
-        raise InfraError("time budget exhausted before the minimum exploration: %d of at least 16 configurations, %d of at least 1000 schedules"
-                         % (done, nsched))
     # bursts: a large backlog builds up before the writer thread gets to run (the queue is unbounded: nothing may be
     # refused, dropped or reordered however many messages are pending); oracle only, the model is not run on these
     for n in ctx.budget([1500, 12000], [1500, 12000, 50000]):
@@ -521,6 +637,33 @@ def run(ctx):
             nviol += 1
             small = dict(obs, log=obs["log"][:20], puts=obs["puts"][:20], left=obs["left"][:20])
             ctx.violation("burst of %d messages: %s" % (n, bad[0]), dict(kind="burst", burst=n, fails=case0["fails"], observed=small, also=bad[1:4]), key=None)
+    # two writers in one process (oracle only: per writer as for a single one)
+    tw_done = tw_sched = 0
+    tw_end = time.time() + ctx.budget(24, 200) * sched.budget_scale()
+    for cfg in two_writer_configs(rng, not ctx.quick):
+        if nviol >= 3 or (time.time() > tw_end and tw_done >= 2):
+            break
+        tw_done += 1
+        tw_here = 0
+        c0 = {k: cfg[k] for k in ("kind", "producers", "owner", "cycles", "fails")}
+        runs = itertools.chain(
+            (("random", run_real_two(S, c0, sched.RandomChooser(srng, stay=srng.choice([0.0, 0.5, 0.8])))) for _ in range(ctx.budget(10, 100))),
+            (("dfs", r) for r in sched.explore(lambda ch: run_real_two(S, c0, ch), bound=bound, limit=ctx.budget(45, 2000), result=lambda r: r[0])))
+        for how, (res, per) in runs:
+            tw_sched += 1
+            tw_here += 1
+            case = dict(c0, schedule=res.schedule)
+            ctx.case(case, nontrivial=res.preemptions >= 1, tags=["two-writers:sched:" + how, "two-writers:cycles:%d" % cfg["cycles"]])
+            bad = oracle_two(c0, res, per)
+            if bad:
+                nviol += 1
+                ctx.violation(bad[0], dict(case, observed=[p["obs"] for p in per], also=bad[1:4]), key=None)
+                break
+            if time.time() > tw_end and tw_here >= 30:
+                ctx.count("budget:cut")
+                break
+    ctx.count("explored:two-writers:configurations", n=tw_done)
+    ctx.count("explored:two-writers:schedules", n=tw_sched)
     if model_in:
         answers = lean_driver("Driver/C19.lean", model_in)
         agree = 0
@@ -547,6 +690,15 @@ def replay(ctx, obj):
         bad = oracle(c0, res, obs)
         if bad:
             ctx.violation("burst of %d messages: %s" % (n, bad[0]), dict(case, also=bad[1:4]))
+        return
+    if case.get("kind") == "two-writers":
+        c0 = {k: case[k] for k in ("kind", "producers", "owner", "cycles", "fails")}
+        res, per = run_real_two(make_scheduler(), c0, sched.Explicit(case["schedule"]))
+        for wi, p in enumerate(per):
+            print("writer %d: offered %s, put history %s, event log %s, left %s" % (wi, p["case"]["producers"], p["obs"]["puts"], p["obs"]["log"], p["obs"]["left"]))
+        bad = oracle_two(c0, res, per)
+        if bad:
+            ctx.violation(bad[0], dict(case, also=bad[1:4]))
         return
     if "producers" not in case:
         run(ctx)
